@@ -157,7 +157,7 @@ def gen_worker(d: D, prof: dict, depth: int, n_hint: int) -> dict:
         ws["retval"] = d.i(0, 3)       # the value a worker returns is its own business: an exception *instance*, None, ...
     ws["fname"] = d.pick(prof["fnames"])
     if "ends" in ws or "callfault" in ws:
-        ws["fault_kind"] = d.i(0, 5)
+        ws["fault_kind"] = d.i(0, 17)
     if d.p(0.08):
         ws["partial"] = True
     elif d.p(0.15):
@@ -306,7 +306,7 @@ def gen_pool(d: D, prof: dict) -> dict:
     if d.p(0.2):
         spec["name"] = "named%d" % d.i(0, 9)
     elif d.p(0.08):
-        spec["name"] = d.pick(["100%", "a%%b", "%s", "%d-pool", "x y", "näme", "{0}", "p_Task-1"]) + str(d.i(0, 3))
+        spec["name"] = d.pick(["100%", "a%%b", "%s", "%d-pool", "x y", "näme", "{0}", "p_Task-1", "a-rather-long-name-for-a-pool-" * 3, "w" * 300]) + str(d.i(0, 3))
     elif d.p(0.05):
         spec["name"] = ""          # a blank name (e.g. from an unset config value) is no name
     if spec["size"] is not None and d.p(0.1):
